@@ -464,10 +464,10 @@ func runCase(c driver.Case) driver.Result {
 
 func main() {
 	driver.Main(driver.Property{
-		ID:    "C10",
-		Level: "exploration",
-		Rule:  "sequential: for each subject kind and buffer size (publish; behavior; replay 1,2,3; async; unicast 0,1,2,3,unlimited) EVERY sequence over {Next v, Error, Complete, Subscribe (new subscriber, ≤3), Unsubscribe 0..2} up to the bound is executed on a fresh subject; after each operation every subscriber's trace and CountObservers/HasObserver/IsClosed/HasThrown/IsCompleted are compared with the sequential definition. Concurrent: 2-4 clients run seeded short sequences (unique values, unique subscriber ids) against one subject with yields at the post-unlock hook points; the recorded history (call/return from one monotonic clock, plus a final read of every subscriber's trace) is checked for linearizability against the same definition with porcupine. Non-trivial: sequences executed / histories with more operations than clients; distinct = distinct operation plans.",
-		Assume: []string{"the sequential definition is DESIGN Appendix B (from the property statement and the subjects' doc comments)", "porcupine timeout (30 s) is inconclusive"},
+		ID:        "C10",
+		Level:     "exploration",
+		Rule:      "sequential: for each subject kind and buffer size (publish; behavior; replay 1,2,3; async; unicast 0,1,2,3,unlimited) EVERY sequence over {Next v, Error, Complete, Subscribe (new subscriber, ≤3), Unsubscribe 0..2} up to the bound is executed on a fresh subject; after each operation every subscriber's trace and CountObservers/HasObserver/IsClosed/HasThrown/IsCompleted are compared with the sequential definition. Concurrent: 2-4 clients run seeded short sequences (unique values, unique subscriber ids) against one subject with yields at the post-unlock hook points; the recorded history (call/return from one monotonic clock, plus a final read of every subscriber's trace) is checked for linearizability against the same definition with porcupine. Non-trivial: sequences executed / histories with more operations than clients; distinct = distinct operation plans.",
+		Assume:    []string{"the sequential definition is DESIGN Appendix B (from the property statement and the subjects' doc comments)", "porcupine timeout (30 s) is inconclusive"},
 		Plan:      plan,
 		Run:       runCase,
 		CaseWatch: 120 * time.Second,
